@@ -2,6 +2,7 @@
   Helper lemmas about the numeric model (jsonb.go:156-250) and PostgreSQL's numeric encoder.
 -/
 import PgVerif.Model.JsonbView
+import PgVerif.Proofs.NumericValue
 namespace PgVerif.Proofs
 open PgVerif PgVerif.Model
 
@@ -132,12 +133,14 @@ theorem any_ge_false (ds : List Nat) (h : ∀ d ∈ ds, d < 10000) :
     have := h d (by simp)
     simp; omega
 
-/-- computeNumeric on well-formed digits is the spec's exact value -/
+/-- computeNumeric on well-formed digits: the decimal text it hands to ParseFloat, read by the Spec's reader,
+is the stored numeric's exact value -/
 theorem computeNumeric_view (ds : List Nat) (w : Int) (neg : Bool) (h : ∀ d ∈ ds, d < 10000) (hne : ds ≠ []) :
     (computeNumeric ds w neg).toView = some (Spec.Numeric.fin neg w 0 ds).view := by
   have hl : ds.length ≠ 0 := by cases ds <;> simp_all
   have he : ds.isEmpty = false := by cases ds <;> simp_all
-  simp [computeNumeric, hl, any_ge_false ds h, NumRes.toView, Spec.Numeric.view, he, mantissa, mantOf_eq]
+  simp [computeNumeric, hl, any_ge_false ds h, NumRes.toView, Spec.Numeric.view, he,
+    NumericValue.readDecimal_numericText ds w neg h hne]
 
 /-! ### totality -/
 
